@@ -75,9 +75,12 @@ var lcReasons = map[string][]string{
 	"appClose":       {"forced close"},
 	"appCloseNow":    {"forced close"},
 	"serverClose":    {"forced close"},
+	// Close(false) with packets still buffered and a client that never polls again: the buffered close
+	// fires after the close timeout, or the heartbeat gives up first
+	"appCloseNoPoll": {"forced close", "ping timeout"},
 }
 
-var lcCauses = []string{"closePacket", "drop", "overlap", "wrongHeartbeat", "garbage", "silence", "appClose", "appCloseNow"}
+var lcCauses = []string{"closePacket", "drop", "overlap", "wrongHeartbeat", "garbage", "silence", "appClose", "appCloseNow", "appCloseNoPoll", "appCloseNoPoll"}
 
 type lcSess struct {
 	idx          int
@@ -90,6 +93,7 @@ type lcSess struct {
 	sid          string
 	causes       []string // injected so far
 	silent       bool     // stopped answering pings
+	noPoll       bool     // polling client that never polls again
 	answered     int
 	closeEvIdx   int // index in sr.Events of the close event, -1
 	cbAfterClose int
@@ -256,7 +260,7 @@ func (lw *lcWorld) service(s *lcSess) {
 			Settle()
 			progressed = true
 		}
-		if s.pc != nil && s.pc.Poll == nil && !s.pc.Closed && len(s.sr.Closes) == 0 {
+		if s.pc != nil && s.pc.Poll == nil && !s.pc.Closed && !s.noPoll && len(s.sr.Closes) == 0 {
 			s.pc.StartPoll()
 			Settle()
 			progressed = true
@@ -369,6 +373,23 @@ func (lw *lcWorld) causeFn(s *lcSess, cause string) func() {
 		}
 	case "silence":
 		return func() { s.silent = true }
+	case "appCloseNoPoll":
+		if s.pc == nil {
+			return nil
+		}
+		return func() {
+			lw.stats["close-with-buffered-data-and-no-further-poll"] = true
+			s.noPoll, s.silent = true, true
+			if s.pc.Poll != nil {
+				// use up the pending poll
+				lw.w.AppSend(s.sr, msgT("answer the pending poll"), nil, false, 0)
+				Settle()
+				s.pc.Pump()
+			}
+			lw.w.AppSend(s.sr, msgT("buffered 1"), nil, true, 0)
+			lw.w.AppSend(s.sr, msgT("buffered 2"), nil, false, 0)
+			s.sr.Sock.Close(false)
+		}
 	case "appClose":
 		return func() { s.sr.Sock.Close(false) }
 	case "appCloseNow":
@@ -710,12 +731,22 @@ func runLC(steps []lcStep) (*lcWorld, bubbleResult) {
 					break
 				}
 				f1, f2 := lw.causeFn(s, st.Cause), lw.causeFn(s, st.Cause2)
-				if f1 == nil || f2 == nil || st.Cause == "overlap" || st.Cause2 == "overlap" {
+				if f1 == nil || st.Cause == "overlap" || st.Cause == "appCloseNoPoll" || st.Cause2 == "appCloseNoPoll" {
 					break
+				}
+				if f2 == nil || st.Cause2 == "overlap" {
+					// instead of a second cause: lookups of unknown session ids racing with the close's bookkeeping
+					lw.stats["close-racing-with-unknown-sid-requests"] = true
+					f2 = func() {
+						for k := 0; k < 6; k++ {
+							Do(w.Srv, NewReq("GET", w.Path, fmt.Sprintf("EIO=4&transport=polling&sid=nosuch%d", k)))
+						}
+					}
+				} else {
+					s.addCause(st.Cause2)
 				}
 				lw.stats["two-causes-same-instant"] = true
 				s.addCause(st.Cause)
-				s.addCause(st.Cause2)
 				var wg sync.WaitGroup
 				wg.Add(2)
 				go func() { defer wg.Done(); f1() }()
